@@ -645,10 +645,14 @@ fn oracle_c13(t: &WorldTrace, obs: &[Obs], stats: &mut Stats) -> Vec<Violation> 
                 if !ok && o.printed.codes.is_empty() {
                     out.push(viol("C13", format!("C13/err-without-coded-diagnostic/{what}"), format!("variant {i} ({role}, args {:?}, world {kind}): non-zero result ({:?}) but stderr carries no error[Pnnnn] line", v.args, o.outcome)));
                 }
+                // (how often a code appears on stderr is not constrained: a summary may repeat it)
                 let mut printed = o.printed.codes.clone();
                 printed.sort();
-                if emitfail == 0 && printed != o.codes() {
-                    out.push(viol("C13", format!("C13/printed-codes-differ-from-emitted/{what}"), format!("variant {i} ({role}): diagnostics handed to the renderer {:?}, printed {:?}", o.codes(), printed)));
+                printed.dedup();
+                let mut emitted = o.codes();
+                emitted.dedup();
+                if emitfail == 0 && !emitted.iter().all(|c| printed.contains(c)) {
+                    out.push(viol("C13", format!("C13/emitted-diagnostic-not-printed/{what}"), format!("variant {i} ({role}): diagnostics handed to the renderer {:?}, codes found on stderr {:?}", o.codes(), printed)));
                 }
             }
         }
